@@ -109,6 +109,39 @@ type H struct {
 	IgnoreMissing bool    `json:"ignore_missing,omitempty"`
 	Filter        []bool  `json:"filter,omitempty"` // per child: accepted by the ChildFilter; nil = no filter option
 	Shuffle       uint64  `json:"shuffle,omitempty"`
+	// TickNs is the unit of every time value of the model (Sec, Lag, MixSec) in nanoseconds:
+	// 0 or 1e9 = whole seconds, 1e6 = milliseconds, 1 = nanoseconds (sub-second instants).
+	TickNs int64 `json:"tick_ns,omitempty"`
+}
+
+// TPS is the number of model ticks per second.
+func (h *H) TPS() int64 {
+	if h.TickNs <= 0 || h.TickNs >= 1e9 {
+		return 1
+	}
+	return 1e9 / h.TickNs
+}
+
+// At converts a model time to the instant (UTC).
+func (h *H) At(tick int64) time.Time { return h.atz(tick, 0) }
+
+// Tick converts an instant produced from this history back to model time.
+func (h *H) Tick(t time.Time) int64 {
+	tps := h.TPS()
+	return t.Unix()*tps + int64(t.Nanosecond())/(1e9/tps)
+}
+
+func (h *H) atz(tick int64, z int) time.Time {
+	tps := h.TPS()
+	sec, frac := tick/tps, tick%tps
+	if frac < 0 {
+		sec, frac = sec-1, frac+tps
+	}
+	t := time.Unix(sec, frac*(1e9/tps))
+	if z <= 0 {
+		return t.UTC()
+	}
+	return t.In(Zones[z%len(Zones)])
 }
 
 // Bogus pre-annotation: values no real version of a generated child can have.
@@ -118,8 +151,6 @@ const (
 	PreLat       = 88.5
 	PreLon       = -177.5
 )
-
-func tm(sec int64) time.Time { return time.Unix(sec, 0).UTC() }
 
 // Zones are the Locations in which generated times are expressed. The instant is what
 // counts; the same instant in two Locations gives two time.Time values that differ as
@@ -136,32 +167,25 @@ var Zones = []*time.Location{
 	time.Local,
 }
 
-// tmz is the instant sec expressed in zone z; the timestamp and the commit time of one
-// version use neighbouring zones, so that they differ as well.
-func tmz(sec int64, z int) time.Time {
-	if z <= 0 {
-		return tm(sec)
-	}
-	return time.Unix(sec, 0).In(Zones[z%len(Zones)])
-}
-
+// stamps gives the timestamp and commit time of a version: the timestamp and the commit
+// time of one version use neighbouring zones, so that they differ as structs as well.
 func (h *H) stamps(sec, lag int64, z int) (ts time.Time, committed *time.Time) {
 	if h.Regime == Commit {
 		if h.Mixed && sec < h.MixSec {
-			return tmz(sec, z), nil
+			return h.atz(sec, z), nil
 		}
-		c := tmz(sec, z)
+		c := h.atz(sec, z)
 		t := sec - lag
-		if min := osm.CommitInfoStart.Unix(); t < min && !h.Mixed {
+		if min := h.Tick(osm.CommitInfoStart); t < min && !h.Mixed {
 			t = min
 		}
 		zt := z
 		if z > 0 {
 			zt = z + 1
 		}
-		return tmz(t, zt), &c
+		return h.atz(t, zt), &c
 	}
-	return tmz(sec, z), nil
+	return h.atz(sec, z), nil
 }
 
 func preVersion(j int) int { return PreVersion + j }
@@ -487,10 +511,21 @@ func (h *H) Shape() string {
 	return fmt.Sprintf("%s/%s/eps%d/p%d/c%d/v%d/del%d/same%d", kind, h.Regime, h.Eps, len(h.Parents), len(h.Children), nv, del, burst)
 }
 
+func floorDiv(a, b int64) int64 {
+	q := a / b
+	if a%b < 0 {
+		q--
+	}
+	return q
+}
+
 // Features lists the pattern classes a history uses (for the evidence signature).
 func (h *H) Features() []string {
 	set := map[string]bool{}
-	E := h.Eps
+	E := h.Eps * h.TPS()
+	if h.TPS() > 1 {
+		set["subsecond"] = true
+	}
 	for _, p := range h.Parents {
 		if !p.Visible {
 			set["pdel"] = true
@@ -558,6 +593,13 @@ func (h *H) Features() []string {
 				}
 				if !used {
 					continue
+				}
+				if tps := h.TPS(); tps > 1 && v.Sec != p.Sec && floorDiv(v.Sec, tps) == floorDiv(p.Sec, tps) {
+					if v.Sec > p.Sec {
+						set["same-second-after-parent"] = true
+					} else {
+						set["same-second-before-parent"] = true
+					}
 				}
 				switch d := v.Sec - p.Sec; {
 				case d == 0:
